@@ -5,6 +5,7 @@ import time
 
 from ..common import Acc, Probe, TempProject, finish, rng_for, run_mos, run_sharded
 from ..gen import corpus, mutate
+from . import growth
 
 OPS = ["parse", "display", "codegen", "greedy", "format", "listing", "merge", "vice", "symbols", "source_map"]
 INTS = ["0", "1", "-1", "255", "256", "65535", "65536", "2147483648", "9223372036854775807", "9223372036854775808",
@@ -266,6 +267,9 @@ def shard(idx, n, seed, tier, params):
     for files, origin in jobs:
         run(files, origin + ":" + next(iter(files.values()))[:40].replace("\n", "⏎"))
     acc.sample({"origin": jobs[0][1], "files": {k: v[:80] for k, v in jobs[0][0].items()}})
+
+    # growth monitor: instruction counts (callgrind) of nesting families at four depths
+    growth.run_families(acc, sorted(growth.FAMILIES)[idx::n])
 
     k = 0
     while time.time() < t_end and k < params["random"] // n:
